@@ -315,7 +315,8 @@ def pe_cases(draw):
 def load_cases(draw):
     ncol = draw(st.integers(1, 3))
     n = draw(st.integers(0, 8))
-    cell = st.one_of(st.none(), VALS.map(float), VALS.map(float), VALS.map(float))
+    cell = st.one_of(st.none(), VALS.map(float), VALS.map(float), VALS.map(float),
+                     st.sampled_from([1e-05, 3.0517578125e-05, 2.5e+20, -4e-07, 1e+16]))
     rows = [[round(0.01 * i, 2)] + [draw(cell) for _ in range(ncol)] for i in range(n)]
     return {"rows": rows, "header": draw(st.booleans()), "undefined_value": draw(st.sampled_from([None, None, 0.0, -1.0, 0])),
             "blank_lines": draw(st.booleans()), "trailing_newline": draw(st.booleans())}
